@@ -686,11 +686,6 @@ func (m *Machine) exec(f *frame, ip int, op Op, arg []byte) {
 		if n < 0 {
 			fault("negative count")
 		}
-		if n >= 1<<24 {
-			// only a marker for the harness (such a count always faults: no
-			// item is that long); see checks/c13 runCase.
-			m.Tag = "right-count-ge-2^24"
-		}
 		s := span(m.pop())
 		if n > len(s) {
 			fault("count beyond the data")
